@@ -42,7 +42,7 @@ Vec3 == IF Tier = "quick" THEN Vec3Quick ELSE Vec3Full
 \* near the light cone, at rest, negative time, zero, generic
 Vec4Quick == { V4(3, 4, 12, 85), V4(-9, 12, -20, 65), V4(12, -16, 15, 65),
                V4(3, 4, 12, 13), V4(3, 4, 12, 5), V4(0, 0, 0, 7), V4(3, 4, 12, -85),
-               V4(0, 0, 0, 0), V4(1, 2, 3, 4), V4(1, -1, 2, 1), V4(0, 0, 3, 5),
+               V4(0, 0, 0, 0), V4(1, 2, 3, 4), V4(1, -1, 2, 1), V4(0, 0, 3, 5), V4(4, 3, 1, 2),
                <<I(3), I(4), I(12), R(105, 8)>> }
 Vec4Full  == Vec4Quick \cup
              { V4(-3, -4, 12, 85), V4(4, -3, -12, 15), V4(-8, -6, 0, 26), V4(0, 0, -5, 13),
